@@ -135,6 +135,7 @@ static void dump_env(const std::string& id, int k, int ret, Instance& inst) {
             hexitem(bytes(e->successor_script.begin(), e->successor_script.end())).c_str(),
             e->tce ? (std::to_string(e->tce->m_i) + ":" + HexStr(e->tce->m_k)).c_str() : "-",
             e->stack_history.size());
+    fflush(OUT);
 }
 
 static void run_cmds(const std::string& id, Instance& inst, const std::string& cmds) {
